@@ -3,6 +3,15 @@ package checks
 // Registry maps property ids to their checks.
 var Registry = map[string]func(Tier) int{
 	"C01": C01,
+	"C02": C02,
+	"C03": C03,
+	"C04": C04,
+	"C05": C05,
+	"C08": C08,
+	"C09": C09,
+	"C10": C10,
+	"C07": C07,
+	"C15": C15,
 }
 
 // Replay re-executes a replay file without the explorer.
